@@ -25,6 +25,8 @@ class Knobs:
         self.nested_targets = 0.3    # bias towards targets nested in orthogonal regions / history
         self.flags = 4               # number of boolean context flags v0..vk used by guards
         self.cflags = 3              # c0..ck used by contract conditions
+        self.avoid_nondet = True     # transitions of one state on one event get distinct priorities
+        self.history_focus = 0.0     # probability, per history state, of adding leave / come-back transitions
         self.__dict__.update(kw)
 
 
@@ -35,6 +37,12 @@ class ChartGen:
         self.names = []
         self.kinds = {}
         self.n = 0
+        self.used_prio = {}
+        self.prio_counter = 0
+
+    def fresh_prio(self, src):
+        self.prio_counter += 1
+        return 10 + self.prio_counter
 
     def fresh(self):
         pool = [a + b for a in 'zyxcba' for b in 'qpo321']
@@ -62,9 +70,10 @@ class ChartGen:
             elif c < 0.5 + k.sends:
                 kind = r.random()
                 if kind < 0.6:
-                    stmts.append("send('%s', v=x)" % r.choice(EVENTS))
+                    stmts.append("send('%s', v=x, b=%s)" % (r.choice(EVENTS), r.choice(['True', 'False', 'x > 2'])))
                 elif kind < 0.8:
-                    stmts.append("send('%s', delay=%d)" % (r.choice(EVENTS), r.randint(0, 3)))
+                    stmts.append("send('%s', delay=%d, v=y, b=%s)" % (r.choice(EVENTS), r.randint(0, 3),
+                                                                   r.choice(['True', 'False'])))
                 else:
                     stmts.append("notify('n%d', v=y)" % r.randint(0, 2))
             elif c < 0.85:
@@ -184,9 +193,35 @@ class ChartGen:
             ev = None if r.random() < k.p_eventless else r.choice(EVENTS)
             guard = self.guard_code(ev is not None) if (r.random() < k.p_guard or ev is None) else None
             pr = r.choice([0, 0, 0, 1, -1, 2])
+            if k.avoid_nondet:
+                used = self.used_prio.setdefault((src, ev), set())
+                while pr in used:
+                    pr = r.choice([-3, -2, -1, 0, 1, 2, 3, 4, 5, 6, 7])
+                used.add(pr)
             t = Transition(src, tgt, event=ev, guard=guard, action=self.action_code(True), priority=pr)
             self.contracts(t)
             sc.add_transition(t)
+        # history scenarios: a way out of the parent and a way back through the history state
+        for h in hist:
+            if r.random() >= k.history_focus:
+                continue
+            par = sc.parent_for(h)
+            inside = set([par] + sc.descendants_for(par))
+            outside = [n for n in owners if n not in inside and self.ok_target(n, h)]
+            leavers = [n for n in owners if n in inside]
+            targets_out = [n for n in allst if n not in inside and self.kinds[n] not in ('shallow', 'deep')]
+            if not outside or not targets_out:
+                continue
+            for _ in range(r.randint(1, 2)):
+                src = r.choice(outside)
+                sc.add_transition(Transition(src, h, event=r.choice(EVENTS), action=self.action_code(True),
+                                             priority=self.fresh_prio(src)))
+            for _ in range(r.randint(1, 2)):
+                src = r.choice(leavers)
+                tgt = r.choice(targets_out)
+                if self.ok_target(src, tgt):
+                    sc.add_transition(Transition(src, tgt, event=r.choice(EVENTS), action=self.action_code(True),
+                                                 priority=self.fresh_prio(src)))
         sc.validate()
         return sc
 
